@@ -327,6 +327,16 @@ uint32_t req_compactor<T, C, A>::nearest_even(float value) {
 }
 
 template<typename T, typename C, typename A>
+void req_compactor<T, C, A>::check_image_fields(uint8_t lg_weight, float section_size_raw, uint8_t num_sections) {
+  // item weights are 1 << lg_weight; section sizes only shrink while their nearest even value stays at least MIN_K
+  if (lg_weight > 63) throw std::invalid_argument("Possible corruption: lg_weight " + std::to_string(lg_weight));
+  if (num_sections < 1) throw std::invalid_argument("Possible corruption: number of sections must be positive");
+  if (!(section_size_raw >= 1.0f && section_size_raw <= 65536.0f) || nearest_even(section_size_raw) < req_constants::MIN_K) {
+    throw std::invalid_argument("Possible corruption: section size " + std::to_string(section_size_raw));
+  }
+}
+
+template<typename T, typename C, typename A>
 template<typename InIter, typename OutIter>
 void req_compactor<T, C, A>::promote_evens_or_odds(InIter from, InIter to, bool odds, OutIter dst) {
   if (from == to) return;
@@ -401,6 +411,8 @@ req_compactor<T, C, A> req_compactor<T, C, A>::deserialize(std::istream& is, con
   auto num_sections = read<decltype(num_sections_)>(is);
   read<uint16_t>(is); // padding
   auto num_items = read<uint32_t>(is);
+  if (!is.good()) throw std::runtime_error("error reading from std::istream");
+  check_image_fields(lg_weight, section_size_raw, num_sections);
   auto items = deserialize_items(is, serde, allocator, num_items);
   return req_compactor(hra, lg_weight, sorted, section_size_raw, num_sections, state, std::move(items), num_items,
       comparator, allocator);
@@ -447,6 +459,7 @@ std::pair<req_compactor<T, C, A>, size_t> req_compactor<T, C, A>::deserialize(co
   ptr += 2; // padding
   uint32_t num_items;
   ptr += copy_from_mem(ptr, num_items);
+  check_image_fields(lg_weight, section_size_raw, num_sections);
   auto pair = deserialize_items(ptr, end_ptr - ptr, serde, allocator, num_items);
   ptr += pair.second;
   return std::pair<req_compactor, size_t>(
